@@ -344,8 +344,22 @@ ASMJIT_FAVOR_SIZE Error init_func_detail(FuncDetail& func, const FuncSignature& 
       uint32_t gpz_pos = 0;
       uint32_t vec_pos = 0;
 
+      // [32-bit] Standard conventions never split a 64-bit integer between a register and stack. RegParm passes it in
+      // two registers if both are available, FastCall, ThisCall, and VectorCall always by stack. Once it ends up on
+      // the stack the remaining registers are not used to pass the arguments that follow it either.
+      bool is_reg_parm = Support::is_between(cc.id(), CallConvId::kRegParm1, CallConvId::kRegParm3);
+      bool is_stack_only_int64 = cc.id() == CallConvId::kFastCall || cc.id() == CallConvId::kThisCall || cc.id() == CallConvId::kVectorCall;
+
       for (uint32_t arg_index = 0; arg_index < arg_count; arg_index++) {
         unpack_values(func, func._args[arg_index]);
+
+        // Two values are only used to represent a 64-bit integer in 32-bit mode.
+        if ((is_reg_parm || is_stack_only_int64) && func._args[arg_index][1]) {
+          bool has_two_regs = gpz_pos + 1 < CallConv::kMaxRegArgsPerGroup && cc._passed_order[RegGroup::kGp].id[gpz_pos + 1] != Reg::kIdBad;
+          if (is_stack_only_int64 || !has_two_regs) {
+            gpz_pos = CallConv::kMaxRegArgsPerGroup;
+          }
+        }
 
         for (uint32_t value_index = 0; value_index < Globals::kMaxValuePack; value_index++) {
           FuncValue& arg = func._args[arg_index][value_index];
